@@ -503,6 +503,7 @@ func runC06(c *config) {
 	c06ConstGEP(c, newRng(c.seed, "c06gep"))
 	// value-producing terminators and exception-handling pads, from the definition and from its users (c06eh.go)
 	c06EH(c, newRng(c.seed, "c06eh"))
+	c06Sig(c) // c06sig.go: Type() vs Sig().RetType vs callee type vs recomputed type of call-like values
 }
 
 func c06One(c *config, u *universe, cs c06Case, bodies string, sample bool) {
